@@ -1304,6 +1304,200 @@ theorem popExtra_length (names : List Key) (map : Dict) (args : List PyVal)
   rw [if_pos h]
   simp
 
+/-! ### `_handle_params`: a keyword naming a FIXED preset is never consumed; the routing is blind to values -/
+theorem dhas_of_mem_keys {kw : Dict} {k : Key} (h : k ∈ keys kw) : dhas kw k = true := by
+  induction kw with
+  | nil => simp [keys] at h
+  | cons e r ih =>
+    obtain ⟨k', v⟩ := e
+    simp only [keys, List.map_cons, List.mem_cons] at h
+    unfold dhas
+    by_cases hk : k = k'
+    · subst hk; simp [List.lookup]
+    · have hr : k ∈ keys r := by
+        rcases h with h | h
+        · exact absurd h hk
+        · exact h
+      have := ih hr
+      unfold dhas at this
+      simp only [List.lookup]
+      have hb : (k == k') = false := by simpa using hk
+      rw [hb]; exact this
+
+theorem mem_dset {d : Dict} {k : Key} {v : PyVal} {x : Key × PyVal} (h : x ∈ dset d k v) :
+    x ∈ d ∨ x = (k, v) := by
+  induction d with
+  | nil => simp [dset] at h; exact .inr h
+  | cons e r ih =>
+    obtain ⟨k', v'⟩ := e
+    unfold dset at h
+    split at h
+    · next hk =>
+      simp only [List.mem_cons] at h ⊢
+      rcases h with h | h
+      · exact .inr (by rw [h, hk])
+      · exact .inl (.inr h)
+    · simp only [List.mem_cons] at h ⊢
+      rcases h with h | h
+      · exact .inl (.inl h)
+      · rcases ih h with h | h
+        · exact .inl (.inr h)
+        · exact .inr h
+
+/-- a keyword survives `fill` unless the dictionary has an OPEN slot (value `None`) of that name -/
+theorem fill_keeps_fixed (d kw : Dict) (k : Key) (hk : k ∈ keys kw) (hd : (k, none) ∉ d) :
+    k ∈ keys (fill d kw).2 := by
+  induction d generalizing kw with
+  | nil => simpa [fill] using hk
+  | cons x r ih =>
+    obtain ⟨k', v⟩ := x
+    have hr : (k, none) ∉ r := by intro h; exact hd (List.mem_cons_of_mem _ h)
+    unfold fill
+    split
+    · next hv _ =>
+      have hne : k ≠ k' := by
+        intro h; apply hd; subst h; simp
+      exact ih _ (mem_keys_derase hk hne) hr
+    · exact ih _ hk hr
+
+/-- the positional loop never opens a slot named by a keyword argument: it raises "passed twice" first -/
+theorem posArgs_no_open (kw : Dict) (names : List Key) (args : List PyVal) (cmd : Dict) (k : Key)
+    (hk : k ∈ keys kw) (hc : (k, none) ∉ cmd) : (k, none) ∉ (posArgs kw names args cmd).1 := by
+  induction names generalizing args cmd with
+  | nil => cases args <;> simpa [posArgs] using hc
+  | cons n ns ih =>
+    cases args with
+    | nil => simpa [posArgs] using hc
+    | cons a as =>
+      unfold posArgs
+      split
+      · exact hc
+      · next hn =>
+        apply ih
+        intro h
+        rcases mem_dset h with h | h
+        · exact hc h
+        · have : k = n := by simpa using congrArg Prod.fst h
+          subst this
+          exact hn (dhas_of_mem_keys hk)
+
+theorem popExtra_no_open (names : List Key) (map : Dict) (args : List PyVal) (k : Key)
+    (hm : (k, none) ∉ map)
+    (hms : k ≠ maxSamples ∨ args.length ≤ names.length ∨ args.getLast?.getD none ≠ none) :
+    (k, none) ∉ (popExtra names map args).1 := by
+  unfold popExtra
+  split
+  · next hlen =>
+    intro h
+    rcases mem_dset h with h | h
+    · exact hm h
+    · rcases hms with hms | hms | hms
+      · exact hms (by simpa using congrArg Prod.fst h)
+      · omega
+      · exact hms (by simpa using (congrArg Prod.snd h).symm)
+  · exact hm
+
+/-- rename the non-`None` values of a dictionary -/
+def vmap (f : Nat → Nat) (d : Dict) : Dict := d.map fun e => (e.1, e.2.map f)
+
+/-- rename the non-`None` values of a call -/
+def Call.vmap (f : Nat → Nat) (c : Call) : Call :=
+  { c with args := c.args.map (Option.map f), kwargs := PM.C18.vmap f c.kwargs }
+
+theorem lookup_vmap (f : Nat → Nat) (d : Dict) (k : Key) :
+    (vmap f d).lookup k = (d.lookup k).map (Option.map f) := by
+  induction d with
+  | nil => simp [vmap]
+  | cons e r ih =>
+    obtain ⟨k', v⟩ := e
+    simp only [vmap, List.map_cons, List.lookup] at ih ⊢
+    cases k == k' <;> simp [ih]
+
+theorem dhas_vmap (f : Nat → Nat) (d : Dict) (k : Key) : dhas (vmap f d) k = dhas d k := by
+  unfold dhas; rw [lookup_vmap]; cases d.lookup k <;> rfl
+
+theorem dset_vmap (f : Nat → Nat) (d : Dict) (k : Key) (v : PyVal) :
+    dset (vmap f d) k (v.map f) = vmap f (dset d k v) := by
+  induction d with
+  | nil => simp [vmap, dset]
+  | cons e r ih =>
+    obtain ⟨k', v'⟩ := e
+    simp only [vmap, List.map_cons, dset] at ih ⊢
+    split
+    · simp
+    · simp [ih]
+
+theorem derase_vmap (f : Nat → Nat) (d : Dict) (k : Key) : derase (vmap f d) k = vmap f (derase d k) := by
+  simp [derase, vmap, List.filter_map, Function.comp_def]
+
+theorem fill_vmap (f : Nat → Nat) (d kw : Dict) :
+    fill (vmap f d) (vmap f kw) = (vmap f (fill d kw).1, vmap f (fill d kw).2) := by
+  induction d generalizing kw with
+  | nil => simp [fill, vmap]
+  | cons e r ih =>
+    obtain ⟨k, v⟩ := e
+    have hl := lookup_vmap f kw k
+    cases v with
+    | none =>
+      cases hk : kw.lookup k with
+      | none =>
+        rw [hk] at hl
+        simp only [vmap, List.map_cons, Option.map_none] at hl ⊢
+        unfold fill
+        simp only [hl, hk]
+        have := ih kw
+        simp only [vmap] at this
+        rw [this]
+        simp
+      | some x =>
+        rw [hk] at hl
+        simp only [vmap, List.map_cons, Option.map_none, Option.map_some] at hl ⊢
+        unfold fill
+        simp only [hl, hk]
+        have := ih (derase kw k)
+        rw [← derase_vmap] at this
+        simp only [vmap] at this
+        rw [this]
+        simp
+    | some y =>
+      simp only [vmap, List.map_cons, Option.map_some]
+      unfold fill
+      have := ih kw
+      simp only [vmap] at this
+      simp only [this]
+      simp
+
+theorem posArgs_vmap (f : Nat → Nat) (kw : Dict) (names : List Key) (args : List PyVal) (cmd : Dict) :
+    posArgs (vmap f kw) names (args.map (Option.map f)) (vmap f cmd) =
+      (vmap f (posArgs kw names args cmd).1, (posArgs kw names args cmd).2) := by
+  induction names generalizing args cmd with
+  | nil => cases args <;> simp [posArgs]
+  | cons n ns ih =>
+    cases args with
+    | nil => simp [posArgs]
+    | cons a as =>
+      simp only [List.map_cons]
+      unfold posArgs
+      rw [dhas_vmap]
+      split
+      · rfl
+      · rw [dset_vmap, ih]
+
+theorem popExtra_vmap (f : Nat → Nat) (names : List Key) (map : Dict) (args : List PyVal) :
+    popExtra names (vmap f map) (args.map (Option.map f)) =
+      (vmap f (popExtra names map args).1, (popExtra names map args).2.map (Option.map f)) := by
+  unfold popExtra
+  simp only [List.length_map]
+  split
+  · have : (List.map (Option.map f) args).getLast?.getD none = (args.getLast?.getD none).map f := by
+      rw [List.getLast?_map]; cases args.getLast? <;> rfl
+    rw [this, dset_vmap]
+    simp [List.dropLast_eq_take, List.map_take]
+  · rfl
+
+theorem isEmpty_vmap (f : Nat → Nat) (d : Dict) : (vmap f d).isEmpty = d.isEmpty := by
+  cases d <;> rfl
+
 /-- `final_truthful` at the level of one reachable state -/
 theorem final_truthful_state (fixed : Bool) (cfg : Cfg) (s : State) (hinv : Inv s)
     (hmap : s.mapPending = cfg.hasMap) (h : s.phase = .active) (w2 : List Ev) :
